@@ -110,7 +110,8 @@ Section Deps.
     match rs_get s (fullname r) with Some c => c | None => Some (fullname r, 0%Z) end.
 
   Definition memload_one (mem : memop) (s : rstate) (src : memop) : bool :=
-    let a0 := match m_off src with OImm v => v | _ => 0%Z end in
+    (* a pre-indexed offset is already part of the base register's tracked change *)
+    let a0 := if m_pre src then 0%Z else match m_off src with OImm v => v | _ => 0%Z end in
     match m_off mem with
     | OSym => false                              (* symbolic displacement: continue *)
     | moff =>
@@ -169,18 +170,16 @@ Section Deps.
           if is_written d l then out else out ++ scan flagdeps d more s2
         else scan flagdeps d more s2
       | OMem m =>
-        let wb := match m_base m with Some b => is_written (OReg b) l | None => false end in
-        if andb (m_pre m) wb then []
-        else if andb (m_post m) wb then []
-        else
-          let out := if is_memload m l s1 then [(l_no l, FStoreLoad)] else [] in
-          if is_memstore m l then out else out ++ scan flagdeps d more s2
+        (* later writes to the base register, also of a pre-/post-indexed store, are tracked in the state *)
+        let out := if is_memload m l s1 then [(l_no l, FStoreLoad)] else [] in
+        if is_memstore m l then out else out ++ scan flagdeps d more s2
       | OOther => scan flagdeps d more s2
       end
     end.
 
   Definition find_depending (flagdeps : bool) (l : line) (rest : list line) : list (nat * dflag) :=
-    flat_map (fun d => scan flagdeps d rest (update_changes [] (l_chg l))) (dsts l).
+    (* the producer's own changes, then its own post-index bump *)
+    flat_map (fun d => scan flagdeps d rest (update_changes (update_changes [] (l_chg l)) (l_chg_post l))) (dsts l).
 
   (* ---- create_DG ---- *)
   (* node: (line number, is the separate load node).  edge: source node, target line, weight *)
